@@ -232,7 +232,7 @@ structure BuildRel (es : List Entry) (tk : List Nat) (st st' : BuildSt) : Prop w
   hs : st'.items.map (·.h) = (tk.filter (keep es)).reverse ++ st.items.map (·.h)
   le : st.idAlloc ≤ st'.idAlloc
   mem : ∀ it ∈ st'.items, it ∈ st.items ∨ (it.h ∈ tk ∧ st.idAlloc < it.id ∧ it.id ≤ st'.idAlloc ∧
-          ∃ e, es[it.h]? = some e ∧ e.canceled = false ∧ it.fwd = e.fwd)
+          ∃ e, es[it.h]? = some e ∧ e.canceled = false ∧ it.fwd = e.fwd ∧ it.req = e.payload)
   mono : (st.items.map (·.id)).Pairwise (· > ·) → (∀ it ∈ st.items, it.id ≤ st.idAlloc) →
           (st'.items.map (·.id)).Pairwise (· > ·) ∧ ∀ it ∈ st'.items, it.id ≤ st'.idAlloc
 
@@ -284,7 +284,7 @@ theorem buildItems_rel (es : List Entry) : ∀ (tk : List Nat) (st : BuildSt), B
         have hc' : e.canceled = false := by simpa using hc
         have ih := buildItems_rel es rest
           { idAlloc := st.idAlloc + 1, count := (if e.pri < highTaskPriority then st.count + 1 else st.count),
-            items := { id := st.idAlloc + 1, h := h, fwd := e.fwd } :: st.items }
+            items := { id := st.idAlloc + 1, h := h, fwd := e.fwd, req := e.payload } :: st.items }
         have hk : keep es h = true := by simp [keep, he, hc']
         refine ⟨?_, ?_, ?_, ?_⟩
         · rw [ih.hs]; simp [List.filter_cons, hk]
@@ -293,7 +293,7 @@ theorem buildItems_rel (es : List Entry) : ∀ (tk : List Nat) (st : BuildSt), B
           rcases ih.mem it hit with h' | ⟨hm, hlt, hle, r⟩
           · simp only [List.mem_cons] at h'
             rcases h' with rfl | h'
-            · exact Or.inr ⟨by simp, by simp, by simpa using ih.le, e, he, hc', rfl⟩
+            · exact Or.inr ⟨by simp, by simp, by simpa using ih.le, e, he, hc', rfl, rfl⟩
             · exact Or.inl h'
           · exact Or.inr ⟨by simp [hm], by simp at hlt; omega, hle, r⟩
         · intro p q
